@@ -14,7 +14,7 @@
 
 from collections import namedtuple
 from functools import lru_cache
-from itertools import islice, cycle, groupby, repeat
+from itertools import islice, cycle, repeat
 import logging
 from math import ldexp
 from random import randint, shuffle
@@ -236,8 +236,15 @@ class DCAwareRoundRobinPolicy(LoadBalancingPolicy):
         return host.datacenter or self.local_dc
 
     def populate(self, cluster, hosts):
-        for dc, dc_hosts in groupby(hosts, lambda h: self._dc(h)):
-            self._dc_live_hosts[dc] = tuple(set(dc_hosts))
+        # hosts arrive in no particular order, so collect per datacenter rather than
+        # grouping runs of neighbours (groupby would let a later run replace an earlier one)
+        by_dc = {}
+        for host in hosts:
+            dc_hosts = by_dc.setdefault(self._dc(host), [])
+            if host not in dc_hosts:
+                dc_hosts.append(host)
+        for dc, dc_hosts in by_dc.items():
+            self._dc_live_hosts[dc] = tuple(dc_hosts)
 
         if not self.local_dc:
             self._endpoints = [
